@@ -387,7 +387,27 @@ _MISC_STORES = {
     'address_none': lambda b: (lambda: b.store_address(None)),
     'snake_string': lambda b: (lambda: b.store_snake_string('xyz' * 50)),
     'dict_none': lambda b: (lambda: b.store_dict(None)),
+    # the builder's containers are public (properties with setters): the caller edits or swaps them at EQUAL size - what the builder
+    # turns into afterwards (end_cell, to_slice, a stack value) is its content now
+    'flip_first_bit': lambda b: (lambda: b.bits.__setitem__(0, not b.bits[0]) if len(b.bits) else None),
+    'rebind_bits_equal_copy': lambda b: (lambda: setattr(b, 'bits', b.bits.copy())),
+    'rebind_refs_equal_copy': lambda b: (lambda: setattr(b, 'refs', list(b.refs))),
+    'replace_bits_inverted': lambda b: (lambda: setattr(b, 'bits', _inverted(b.bits))),
+    'replace_first_ref': lambda b: (lambda: b.refs.__setitem__(0, _marker_cell()) if b.refs else None),
+    'replace_refs_list': lambda b: (lambda: setattr(b, 'refs', [_marker_cell()] * len(b.refs))),
 }
+
+
+def _inverted(bits):
+    from pytoniq_core.boc.tvm_bitarray import TvmBitarray
+    t = TvmBitarray(1023)
+    t.extend(''.join('1' if c == '0' else '0' for c in bits.to01()))
+    return t
+
+
+def _marker_cell():
+    from pytoniq_core.boc.builder import Builder
+    return Builder().store_uint(0x5AC3, 16).end_cell()
 
 # --------------------------------------------------------------------------------------------------
 # the interpreter
@@ -728,6 +748,11 @@ class _World:
             self._add_slice(r, e['roots'] | e['ended'])
             return None, None, None
         e['ended'].add(len(self.cells))
+        # the cell holds what the builder holds at this moment - whatever the builder held at an earlier end_cell()
+        b = e['o']
+        if r.bits.to01() != b.bits.to01() or [x.hash for x in r.refs] != [x.hash for x in b.refs]:
+            return Fail(f'builder.{how}/cell-differs-from-the-builders-content', f'{self._at()}: builder holds {len(b.bits)} bits / '
+                        f'{len(b.refs)} refs [{_clip(b.bits.to01())}], the cell {len(r.bits)} bits / {len(r.refs)} refs [{_clip(r.bits.to01())}]'), None, None
         return self._add_cell(r, 'end_cell', e['roots']), None, None
 
     # ---- mutate
